@@ -15,13 +15,15 @@ EXTENDS Addr, TLC
 
 (***************************** delivery monitor ****************************)
 \* acc: accepted messages [src, sa, da, pgn, data, cm]; got: <<i, node, tag>>; eom: <<i, tag>>
-DmInit == [acc |-> <<>>, got |-> {}, eom |-> {}]
+DmInit == [acc |-> <<>>, got |-> {}, eom |-> {}, nsub |-> 0, refused |-> {}]
 
 DmAccept(dm, n, a) ==
     LET da == IF a.ps = GLOBAL \/ IsPdu2(a.pf) THEN GLOBAL ELSE a.ps
         m == [src |-> n, sa |-> a.sa, da |-> da, pgn |-> PgnOf(a.dp, a.pf, a.ps), data |-> a.data,
-              cm |-> (Len(a.data) > 8 /\ da # GLOBAL)]
-    IN [dm EXCEPT !.acc = Append(@, m)]
+              cm |-> (Len(a.data) > 8 /\ da # GLOBAL), sub |-> dm.nsub + 1]
+    IN [dm EXCEPT !.acc = Append(@, m), !.nsub = @ + 1]
+\* a submission that send_pgn refused (returned False)
+DmRefuse(dm) == [dm EXCEPT !.nsub = @ + 1, !.refused = @ \cup {dm.nsub + 1}]
 
 ListenerOf(cfg, tag) == cfg.lst[CHOOSE i \in 1..Len(cfg.lst) : cfg.lst[i].tag = tag]
 
@@ -47,14 +49,25 @@ DmDeliver(dm, cfgs, n, h) ==
                  IN [dm |-> [dm EXCEPT !.eom = @ \cup {<<i, h.tag>>}], bad |-> {}]
 
 \* at the end of a scenario in which nothing was lost: everything arrived everywhere
+Undelivered(dm, tr, i) ==
+    \E m \in DOMAIN tr.cfg : \E j \in 1..Len(tr.cfg[m].lst) :
+        /\ m # dm.acc[i].src
+        /\ Reaches(tr.cfg[m], tr.cfg[m].lst[j], dm.acc[i].da)
+        /\ <<i, m, tr.cfg[m].lst[j].tag>> \notin dm.got
+\* expect.all : nothing was lost, so every accepted message must have arrived everywhere
+\* expect.must: submissions (by number) that must have been accepted and delivered everywhere
+\* expect.accept: submissions that must have been accepted
 DmFinal(dm, tr) ==
-    IF ~tr.expect.all THEN {}
-    ELSE IF \E i \in 1..Len(dm.acc) : \E m \in DOMAIN tr.cfg : \E j \in 1..Len(tr.cfg[m].lst) :
-              /\ m # dm.acc[i].src
-              /\ Reaches(tr.cfg[m], tr.cfg[m].lst[j], dm.acc[i].da)
-              /\ <<i, m, tr.cfg[m].lst[j].tag>> \notin dm.got
-         THEN {"accepted message not delivered to an addressed listener"}
-         ELSE {}
+    (IF tr.expect.all /\ \E i \in 1..Len(dm.acc) : Undelivered(dm, tr, i)
+     THEN {"accepted message not delivered to an addressed listener"} ELSE {})
+    \cup
+    (IF "must" \in DOMAIN tr.expect /\ \E k \in 1..Len(tr.expect.must) :
+           \/ ~\E i \in 1..Len(dm.acc) : dm.acc[i].sub = tr.expect.must[k]
+           \/ \E i \in 1..Len(dm.acc) : dm.acc[i].sub = tr.expect.must[k] /\ Undelivered(dm, tr, i)
+     THEN {"follow-up transfer not accepted or not delivered"} ELSE {})
+    \cup
+    (IF "accept" \in DOMAIN tr.expect /\ \E k \in 1..Len(tr.expect.accept) : tr.expect.accept[k] \in dm.refused
+     THEN {"send_pgn refused although no transfer on that pair is in progress"} ELSE {})
 
 (******************************** bus monitor ******************************)
 \* connections: ordered map key -> [key, size, total, limit, pgn, hi, nxt, lastDt, bam, buf, start]
@@ -103,7 +116,11 @@ BmStep(bm, acc, cfgs, n, e) ==
                    THEN ko("end-of-message acknowledge does not match the RTS")
                    ELSE IF stack /\ c.nxt <= c.total THEN ko("end-of-message acknowledge before all packets were on the bus")
                    ELSE ok(BDel(bm, CKey(da, sa)))
-         [] d[1] = CB_ABORT -> ok(BDel(BDel(bm, CKey(da, sa)), CKey(sa, da)))
+         [] d[1] = CB_ABORT ->
+              \* an abort revokes every clearance on the pair (it does not say which of two successive
+              \* connections it means); a later CTS clears packets again
+              LET rv(b, k) == IF BHas(b, k) THEN BPut(b, [BGet(b, k) EXCEPT !.hi = BGet(b, k).nxt - 1]) ELSE b
+              IN ok(rv(rv(bm, CKey(da, sa)), CKey(sa, da)))
          [] OTHER -> ok(bm)
     ELSE \* TP.DT
        IF ~BHas(bm, CKey(sa, da))
